@@ -45,12 +45,21 @@ T = {
  "C15": ("reference-semantics monitoring against a numpy transcription of the ONNX operator specifications",
          "Exploration: ~115 operators x sampled attributes, opsets, shapes, dtypes and special values; rten's un-optimised output compared with a naive numpy reference.",
          "The reference is new code written from the spec; settings rten refuses with an error are counted as unsupported; unspecified corners are not generated."),
+ "C16": ("f64 reference oracle, poisoned outputs, guard pages in forked children, ASan, Miri (generic kernel)",
+         "Exploration: every f32 kernel the hook reports run on generated problems covering tile-boundary shapes, layouts, alpha/beta/bias, prepacked/im2col forms and the three APIs; every output element compared with an f64 reference under a forward error bound; outputs pre-poisoned so unwritten elements and beta=0 leaks are visible; a quarter of the problems run flush against PROT_NONE pages.",
+         "Kernels limited to those usable on the host (Generic, Fma, Avx512). NaN/inf operands are not generated."),
+ "C17": ("exact i64 reference oracle for every int8 kernel; guard pages; quantize round trip through public functions",
+         "Exploration: every u8 x i8 -> i32 kernel on problems with per-row/per-column zero points and extreme values, exact where the kernel cannot saturate or operands are in the reduced range; DynamicQuantizeLinear followed by DequantizeLinear within one step.",
+         "MatMulInteger/ConvInteger operators are covered by the model-level checks; full-range results on a saturating kernel are only counted."),
  "C18": ("scalar-definition oracle, cross-ISA comparison, PROT_NONE guard pages and canaries in a forked child",
          "Exploration: every primitive of the public rten-simd traits x element type x ISA (generic, AVX2, AVX-512) compared lane by lane with a scalar definition (exhaustive for 8-bit, sampled/exhaustive 16-bit); 19 slice helpers run for lengths 0..=4*lanes+3 flush against guard pages and between canaries.",
          "Cases the docs leave unspecified are skipped or only compared across ISAs. No aarch64 / wasm."),
  "C19": ("differential monitoring against two references over structured (quick) / all 2^32 (thorough) bit patterns",
          "Exploration, exhaustive in thorough: Exp, Sigmoid, Tanh, Erf, Sin, Cos under each ISA checked with the in-tree tests' own error definition and bounds; a violation only when the bound fails against both the f32 and the f64 reference. Softmax non-negativity and sum.",
          "Sign of zero not compared; Sin/Cos bounded only on |x| <= 48000."),
+ "C22": ("concurrent stress against precomputed sequential results; plan-cache events and seeded yields through hooks; TSan and Miri in thorough",
+         "Exploration: 2-8 threads share one model and issue run/partial_run requests with mutually different plan keys (forcing plan-cache replacement, also in nested subgraph caches) with seeded delays between plan hand-off and execution; every result compared bit-exactly with the same request executed alone. Evidence counts plan replacements that happened while another call was in flight and distinct event interleavings.",
+         "Schedules are sampled, not enumerated; an unfinished group is inconclusive."),
  "C23": ("real-thread stress with seeded schedule perturbation at in-crate yield points; ownership ledger; layout-checking counting allocator; ASan (quick), TSan and Miri (thorough)",
          "Exploration: thousands of multi-threaded alloc/add/drop histories over 11 element types on one BufferPool; every hand-out checked for capacity, alignment, allocation layout and exclusive ownership; every free checked against its allocation layout; nothing leaked.",
          "Interleavings are sampled, not enumerated; the pool mutex is not model-checked."),
@@ -84,6 +93,21 @@ T = {
  "C33": ("invariant monitoring plus a deterministic directed search for zero-probability picks",
          "Exploration: ArgMax maximality and Multinomial membership/non-zero probability/seed reproducibility on 1-200 candidates under three ISAs.",
          "NaN/+inf logits and all -inf sets are outside the statement."),
+ "C34": ("differential round trip against a naive array model; spec-built NumPy files; format-aware malformed-file fuzzing in children with catch_unwind, alarm and allocation monitor; ASan in thorough",
+         "Exploration: round trips per format and dtype from contiguous, permuted, sliced and broadcast sources read back with the same shape, dtype and elements; mutated files read without panic, abort or hang.",
+         "Allocation amplification on malformed input is recorded, not judged."),
+ "C35": ("exact (i128) and toleranced geometric oracles over exhaustive small grids and random point sets",
+         "Exploration, exhaustive for small grids: convex_hull, min_area_rect, simplify_polyline/polygon checked against the stated geometric properties.",
+         "A hull wrong by less than 5e-3*max|coord| on non-integer input is accepted."),
+ "C36": ("exhaustive small-mask enumeration against a flood-fill labelling; drawing on guard-page-backed images in forked children with before/after diffs",
+         "Exploration, exhaustive for masks up to 4x4 (quick) / 5x5 (thorough): contours compared with an independent component labelling; drawing primitives with coordinates far outside the image must only change pixels inside the clipped shape bounds, faults observed as signals.",
+         "The strict reading that stroke_rect stays inside the rect is counted, not asserted."),
+ "C37": ("reference oracle: dequantize-then-multiply in f64, with forced ISAs; guard pages",
+         "Exploration: BlockQuantizedGemm (Float under generic/AVX2/AVX-512, Int8) and GemmExecutor with a block-quantized B vs dequantize-then-multiply in f64; a wrong scales shape must not fault or return unwritten output.",
+         "Zero points and partial blocks exist only at the MatMulNBits operator."),
+ "C38": ("counting reader and byte-level I/O monitors (logical linear-time bounds), catch_unwind, global-allocator monitor, forked children, ASan; Miri in thorough",
+         "Exploration: structure-aware mutants of valid ONNX models (hostile lengths at every length site, wire types, varints, deep nesting, byte noise) decoded from a buffer, a file and through the sniffing path; position monotonic, bytes read <= 2*len, calls <= 4*len, no allocation sized by a length beyond the input, Err whenever a field exceeds the rest of the input.",
+         "Clock-free bounds; timeouts are never verdicts; lengths exceeding only the enclosing message are not judged."),
  "C39": ("reference monitoring against brute-force alignment enumeration and the forward algorithm in f64",
          "Exploration: greedy and beam decoding on small matrices (exact enumeration) and larger ones (forward algorithm); distinctness, finiteness, upper bound and exactness when nothing is pruned.",
          "Tolerance scaled with T for long f32 log-sum-exp chains."),
